@@ -417,7 +417,7 @@ func RunC17(cfg Config) (*ShardResult, error) {
 			}
 			// with the PID given, the demuxer needs no rewind: whether the source can seek, or is a *bufio.Reader, must
 			// not matter either (with PID auto-detection it legitimately does: a non-seekable source cannot be rewound)
-			if (reader == "ts" || reader == "ts-pid") && crossMediumApplies(d.Data) && cfg.Mine(Key64(dh, reader, "cross-medium")) {
+			if (reader == "ts" || reader == "ts-pid") && crossMediumApplies(d.Name, d.Data) && cfg.Mine(Key64(dh, reader, "cross-medium")) {
 				base, _ := EvalRead(reader, d.Data, simio.ReadPlan{Medium: "seekable"})
 				for _, medium := range []string{"plain", "bufio"} {
 					o, _ := EvalRead(reader, d.Data, simio.ReadPlan{Medium: medium})
@@ -627,7 +627,12 @@ func c17RealReaders(cfg Config, reader string, d corpus.Doc, res *ShardResult) (
 // crossMediumApplies: the kind of source may legitimately matter when the stream does not start with its two table
 // packets (a non-seekable source is synchronised by discarding the first two packets, which the demuxer has used
 // to probe the packet size) or is shorter than that; the cross-medium comparison is made only where it must hold.
-func crossMediumApplies(ts []byte) bool {
+func crossMediumApplies(name string, ts []byte) bool {
+	// only streams exactly as the muxer produced them: a mutated or spliced stream may carry its damage in the two
+	// table packets, which a seekable source parses and a non-seekable one discards unparsed
+	if strings.Contains(name, "~mut") || strings.Contains(name, "+") || !(strings.HasPrefix(name, "gen-ts") || strings.HasPrefix(name, "ts-")) {
+		return false
+	}
 	if len(ts) < 3*188 || len(ts)%188 != 0 {
 		return false
 	}
@@ -702,7 +707,7 @@ func c17Probes(res *ShardResult, d corpus.Doc, p simio.ReadPlan, sr *simio.Reade
 // It returns a violation or nil.
 func CheckReadScenario(sc ReadScenario) *Violation {
 	if sc.Plan.Name == "cross-medium" {
-		if !crossMediumApplies(sc.Data) {
+		if !crossMediumApplies(sc.Doc, sc.Data) {
 			return nil
 		}
 		base, _ := EvalRead(sc.Reader, sc.Data, simio.ReadPlan{Medium: "seekable"})
@@ -755,6 +760,9 @@ func CheckReadScenario(sc ReadScenario) *Violation {
 // violation of the same class: simpler plans first, then a ddmin over the
 // document bytes.
 func MinimiseRead(sc ReadScenario, check func(ReadScenario) *Violation, budget Deadline) ReadScenario {
+	if sc.Plan.Name == "cross-medium" || sc.Plan.Name == "open-kinds" {
+		return sc // these comparisons are defined on whole, well-formed documents only
+	}
 	class := func(s ReadScenario) bool { v := check(s); return v != nil }
 	if !class(sc) {
 		return sc
